@@ -327,8 +327,13 @@ def parent(mod, pid, args, seed, only):
                 print("regression of fixed finding %s: %s" % (e.get("id"), msg))
                 violations.append((e.get("clause", "?"), wit))
 
-    # 2. committed regression replays (replays/<ID>/regress-*.json) must hold
-    for path in sorted(glob.glob(os.path.join(VERIF, "replays", pid, "regress", "*.json"))):
+    # 2. committed regression replays must hold: replays/<ID>/fixed/*.json (witnesses of repaired
+    #    defects) and replays/<ID>/regress/*.json
+    done = {os.path.join(VERIF, e["witness"]) for e in load_known(pid) if e.get("status") == "fixed" and e.get("witness")}
+    for path in sorted(glob.glob(os.path.join(VERIF, "replays", pid, "fixed", "*.json")) +
+                       glob.glob(os.path.join(VERIF, "replays", pid, "regress", "*.json"))):
+        if path in done:
+            continue
         _, failed, msg = replay_file(mod, path)
         if failed:
             violations.append(("regress", os.path.relpath(path, VERIF)))
